@@ -162,6 +162,8 @@ pub enum Rec {
     StopProcessed,
     /// waker queue content at the start of an accept turn
     ConnPanicked { conn: usize },
+    /// a pause / resume / stop call was made (its command is in the server task's channel now)
+    CmdSent(Ev),
     AcceptQueueBefore(Vec<String>),
     /// the interests the accept loop took off its queue in this turn (those queued before the
     /// turn plus those pushed while it ran, minus what is left)
@@ -1194,11 +1196,14 @@ impl Sys {
                     _ => unreachable!(),
                 };
                 w.server_inbox.borrow_mut().push(format!("{:?}", ev));
+                w.rec(Rec::CmdSent(ev));
                 w.cmds.borrow_mut().push(CmdFut { kind: ev, fut: Some(fut), done: false, dropped: false });
             }
             Ev::Signal(n) => {
                 let h = w.handle.borrow().clone().unwrap();
                 h.verif_deliver_signal(n);
+                // the hook delivers the signal as the command it maps to, through the same channel
+                w.server_inbox.borrow_mut().push(format!("Signal({n})"));
                 w.rec(Rec::SignalSent(n));
             }
             Ev::DropStop(i) => {
